@@ -12,7 +12,7 @@
              of its PRIMARY KEY index as well.
    One archive (one `arch` key) is modelled.  All BobError outcomes are one
    status (SErr).  *)
-From Coq Require Import List NArith Bool.
+From Coq Require Import List NArith Bool Sorted.
 Require Import BobV.Gen.ConstsC19.
 Import ListNotations.
 Open Scope N_scope.
@@ -484,4 +484,99 @@ Fixpoint obss_eqb (a b : list (obs * list bid)) : bool :=
   | [], [] => true
   | x :: a', y :: b' => obs_eqb x y && obss_eqb a' b'
   | _, _ => false
+  end.
+
+(* ========================================================================
+   Specification vocabulary (used by the statements in Properties.v)
+   ======================================================================== *)
+
+(* geb asc a b: key a is at least as good as key b (undefined keys are worst) *)
+Definition geb (asc : bool) (a b : option str) : bool :=
+  match a, b with
+  | _, None => true
+  | None, Some _ => false
+  | Some x, Some y => if asc then str_leb x y else str_leb y x
+  end.
+
+(* the LIMIT queue on its own: arrivals its, limit n *)
+Definition q_step (asc : bool) (n : nat) (q : list qitem) (it : qitem) : list qitem :=
+  firstn n (q_insert asc q it).
+Definition q_run (asc : bool) (n : nat) (its : list qitem) : list qitem :=
+  fold_left (q_step asc n) its [].
+
+(* reachability over the refs table, starting from S0 *)
+Inductive reach (I : index) (S0 : list bid) : bid -> Prop :=
+| reach_base b : In b S0 -> reach I S0 b
+| reach_step a b : reach I S0 a -> In b (refs_of I a) -> reach I S0 b.
+
+Definition key_of (I : index) (r : rexpr) (b : bid) : option str :=
+  match eval_var (get_vars I b) (sort_path r) with Ok k => k | Err => None end.
+
+Definition matches (I : index) (r : rexpr) (b : bid) : bool :=
+  match eval_bool (get_vars I b) (r_expr r) with Ok true => true | _ => false end.
+
+(* the matched artifacts with their sort keys, in arrival order *)
+Definition mitems (I : index) (r : rexpr) (bs : list bid) : list qitem :=
+  map (fun b => (b, key_of I r b)) (filter (matches I r) bs).
+
+(* what one retention expression retains *)
+Definition selects (I : index) (r : rexpr) (S : list bid) : Prop :=
+  let M := mitems I r (build_ids I) in
+  match r_limit r with
+  | None => forall x, In x S <-> In x (map fst M)
+  | Some n =>
+    NoDup S /\ incl S (map fst M) /\ length S = Nat.min (N.to_nat n) (length M) /\
+    forall x y, In x S -> In y (map fst M) -> ~ In y S ->
+                geb (r_asc r) (key_of I r x) (key_of I r y) = true
+  end.
+
+(* ---- what the index should contain for an archive content A *)
+Definition ar_find (b : bid) (A : archive) : option afile :=
+  find (fun f => str_eqb (f_bid f) b) A.
+
+Definition wf (A : archive) : Prop := NoDup (ar_bids A).       (* one file per build-id *)
+
+Definition rowspec (A : archive) (b : bid) : option (N * vars) :=
+  match ar_find b A with
+  | Some f => match f_audit f with Some au => Some (f_stat f, au_vars au) | None => None end
+  | None => None
+  end.
+
+Definition refspec (A : archive) (b : bid) : list bid :=
+  match ar_find b A with
+  | Some f => match f_audit f with Some au => audit_refs au | None => [] end
+  | None => []
+  end.
+
+Definition row_lt (a b : row) : Prop := str_cmp (fst a) (fst b) = Lt.
+Definition ref_lt (a b : bid * bid) : Prop := ref_cmp a b = Lt.
+
+(* the index is exactly the image of the archive content A: one row per
+   artifact with an audit trail (its stat and vars), the references of exactly
+   these artifacts, both tables in key order *)
+Record Inv (I : index) (A : archive) : Prop := {
+  inv_fsorted : StronglySorted row_lt (ix_files I);
+  inv_rows : forall b, find_row b (ix_files I) = rowspec A b;
+  inv_rsorted : StronglySorted ref_lt (ix_refs I);
+  inv_refs : forall b r, In (b, r) (ix_refs I) <-> In r (refspec A b)
+}.
+
+(* binStat identifies the content: two files of the same name with the same
+   stat have the same audit trail *)
+Definition compat (A0 A : archive) : Prop :=
+  forall g f, In g A0 -> In f A -> f_bid g = f_bid f -> f_stat g = f_stat f -> f_audit g = f_audit f.
+
+Definition stat_faithful (h : list event) : Prop :=
+  forall g f, In (EPut g) h -> In (EPut f) h ->
+              f_bid g = f_bid f -> f_stat g = f_stat f -> f_audit g = f_audit f.
+
+Definition scanning (c : cmd) : bool :=
+  match c with CScan _ => true | CFind n _ _ => negb n | CClean _ n _ _ => negb n end.
+
+(* the command with the -n (and -f) flag cleared *)
+Definition with_scan (c : cmd) : cmd :=
+  match c with
+  | CScan _ => CScan false
+  | CFind _ _ es => CFind false false es
+  | CClean d _ _ es => CClean d false false es
   end.
